@@ -177,6 +177,9 @@ class Case final : public sim::CaseBase {
     j.drop_fiber = sim::Fiber();
     if (stop_invoke == 0) {
       sim::Fail("DROP_WITHOUT_STOP", "job %d was dropped before any stop request had been made", idx);
+    } else if (pool_ptr != nullptr && pool_ptr->Alive()) {
+      // Drop means "refused because stopped": whoever is told so may act on it at once (resubmit, report), so the pool must already say so itself
+      sim::Fail("DROP_WITHOUT_STOP", "job %d was dropped while the pool still reports Alive() (it would still accept the next job)", idx);
     }
   }
 
